@@ -937,6 +937,8 @@ def gen_reader_case(rng, stream):
     elif flavour == "plainhdr":
         hl.append("#" + rng.choice(GEN_KEYS[:4]) + " " + rng.choice(GEN_VALUES[:5]))
     order = rng.choice([None, None, "Coordinate", "BarcodesAndCoordinate", "Unsorted", "Unknown"])
+    if focused("sort_order.py") and rng.random() < 0.6:
+        order = rng.choice(["Coordinate", "BarcodesAndCoordinate"])      # aim at the order checker and its keys
     contigs = None
     if order is not None:
         hl.append("#sort.order " + order)
@@ -1437,3 +1439,23 @@ def wire_derive_args(src, version, annotation, so, contigs):
 
 def dec_derive_args(sx):
     return {"res": d_res(sx, d_header)}
+
+
+# ------------------------------------------------------------------ steering: which source functions changed
+FOCUS = {"files": set(), "functions": set()}
+
+
+def set_focus(changed):
+    """changed: ["header.py:MafHeader.validate", ...] (functions whose AST differs from the pinned tree)"""
+    for c in changed or []:
+        f, _, fn = c.partition(":")
+        FOCUS["files"].add(f)
+        FOCUS["functions"].add(fn)
+
+
+def focused(*files):
+    return any(f in FOCUS["files"] for f in files)
+
+
+def focused_fn(*fragments):
+    return any(any(fr in fn for fr in fragments) for fn in FOCUS["functions"])
